@@ -7,11 +7,17 @@
    (c) within a matched session both sides derive the same key and the client's finalization is the one
        the server expects;
    (d) every session draws its nonces and ephemeral seeds from its own, disjoint range of the tape.
-   NOT YET PROVED: the inductive invariant over arbitrary histories (DESIGN.md C07); the history-level
-   statement is decided by the exhaustive routing battery with the matched-conversation oracle and the
-   cross-check of every finish step against the model. *)
+   (e) MATCHING, whatever the routing: a client that accepts a response carrying the MAC of an honest server
+       session has the same transcript as that session (so the session consumed this client's request and
+       the response is that session's, field by field), and a server session that accepts a client run's
+       finalization has the transcript and server MAC that run verified - or an HMAC / hash collision is
+       exhibited.
+   NOT YET PROVED: the bookkeeping induction that lifts (a)-(e) to an invariant over arbitrary histories
+   (DESIGN.md C07), and distinctness of the keys of distinct sessions (a BadFresh event); the
+   history-level statement is decided by the exhaustive routing battery with the matched-conversation
+   oracle and the cross-check of every finish step against the model. *)
 From Coq Require Import List.
-From OKE Require Import Bytes Suite Generated Voprf Messages Envelope TripleDH Opaque Laws Layers Transcript Accept TapeLayout.
+From OKE Require Import Bytes Suite Generated Voprf Messages Envelope TripleDH Opaque Laws Layers Transcript Accept TapeLayout Bad Matching.
 
 Theorem C07_one_finalization_per_session :
   forall E Sc Pk Sk (CS : Suite E Sc Pk Sk) st m k,
@@ -58,3 +64,36 @@ Theorem C07_session_randomness_from_own_tape_range :
                    k2_server_e_pk (cr_ke2 resp) = k_pub (ke CS) esk).
 Proof. exact @server_login_start_layout. Qed.
 Print Assumptions C07_session_randomness_from_own_tape_range.
+
+Theorem C07_accepted_response_matches_a_server_session :
+  forall E Sc Pk Sk (CS : Suite E Sc Pk Sk), HashLaws (hash CS) ->
+  forall a b c pre sk km2 km3 hs a' b' c' pre' sk' km2' km3' hs',
+    derive_3dh_keys CS a b c (h_hash (hash CS) pre) = Ok (sk, km2, km3, hs) ->
+    derive_3dh_keys CS a' b' c' (h_hash (hash CS) pre') = Ok (sk', km2', km3', hs') ->
+    h_hmac (hash CS) km2 (h_hash (hash CS) pre) = h_hmac (hash CS) km2' (h_hash (hash CS) pre') ->
+    (pre = pre' /\ a ++ b ++ c = a' ++ b' ++ c' /\ sk = sk' /\ km3 = km3') \/ Bad (hash CS).
+Proof. exact @equal_server_mac_equal_transcript. Qed.
+Print Assumptions C07_accepted_response_matches_a_server_session.
+
+Theorem C07_equal_transcripts_same_conversation :
+  forall ctx ids cpk spk u s req l2 n e pre ctx' ids' cpk' spk' u' s' req' l2' n' e',
+    bytestrings_from_identifiers ids cpk spk = Ok (u, s) ->
+    bytestrings_from_identifiers ids' cpk' spk' = Ok (u', s') ->
+    length req = length req' -> length l2 = length l2' -> length n = length n' ->
+    preamble ctx u req s l2 n e = Ok pre ->
+    preamble ctx' u' req' s' l2' n' e' = Ok pre ->
+    ctx = ctx' /\ effective (id_client ids) cpk = effective (id_client ids') cpk' /\
+    effective (id_server ids) spk = effective (id_server ids') spk' /\
+    req = req' /\ l2 = l2' /\ n = n' /\ e = e'.
+Proof. exact @equal_transcripts_same_conversation. Qed.
+Print Assumptions C07_equal_transcripts_same_conversation.
+
+Theorem C07_accepted_finalization_matches_the_client_run :
+  forall E Sc Pk Sk (CS : Suite E Sc Pk Sk) st fin k pre mac km3c prec macc,
+    sl_hashed_transcript st = h_hash (hash CS) (pre ++ mac) ->
+    cf_mac fin = h_hmac (hash CS) km3c (h_hash (hash CS) (prec ++ macc)) ->
+    length (sl_km3 st) = length km3c ->
+    server_login_finish CS st fin = Ok k ->
+    (sl_km3 st = km3c /\ pre ++ mac = prec ++ macc /\ k = sl_session_key st) \/ Bad (hash CS).
+Proof. exact @accepted_finalization_same_transcript. Qed.
+Print Assumptions C07_accepted_finalization_matches_the_client_run.
